@@ -44,6 +44,20 @@ class It:
         return f"It({self.a},{self.b},{self.c},{self.tags})"
 
 
+@symbol
+@dataclass
+class EqFullItem:
+    """the fields of Item, but instances with equal fields compare equal (dataclass eq) while being distinct objects"""
+    name: str
+    size: int
+    flag: bool = False
+    tags: list = field(default_factory=list)
+    props: dict = field(default_factory=dict)
+
+    def big(self):
+        return self.size > 1
+
+
 OPS = {'lt': operator.lt, 'le': operator.le, 'gt': operator.gt, 'ge': operator.ge, 'eq': operator.eq, 'ne': operator.ne}
 
 
@@ -54,12 +68,20 @@ def reset_registry():
 
 
 # ------------------------------------------------------------------ data
-def make_domain(rng, n, falsy=False, prefix='o'):
+def make_domain(rng, n, falsy=False, prefix='o', equal_values=False, none_names=False):
     out = []
     for i in range(n):
         sizes = [0, 1, 2, 3] if falsy else [1, 2, 3]
         names = ['', 'a', 'b'] if falsy else ['a', 'b', 'c']
+        if none_names:
+            names = names + [None]
         tagpool = [0, 1, 2] if falsy else [1, 2, 3]
+        if equal_values:
+            # distinct objects that compare equal with == (a plain dataclass): small pools, so equal ones are frequent
+            z = rng.choice([1, 2])
+            out.append(EqFullItem(name=rng.choice(['a', 'b'] + ([None] if none_names else [])), size=z, flag=False, tags=[z],
+                                  props={'k': rng.choice([1, 2])}))
+            continue
         out.append(Item(name=rng.choice(names), size=rng.choice(sizes), flag=rng.random() < 0.5,
                         tags=[rng.choice(tagpool) for _ in range(rng.randint(0 if falsy else 1, 2))],
                         props={'k': rng.choice(sizes)}))
@@ -98,6 +120,9 @@ def gen_leaf(rng, nvars, falsy, vocab):
             return ('cmp', rng.choice(['eq', 'ne']), ('attr', rng.randrange(nvars), 'name'), ('attr', rng.randrange(nvars), 'name'))
         return ('cmp', rng.choice(['eq', 'ne']), ('attr', rng.randrange(nvars), 'name'),
                 ('lit', rng.choice(['', 'a', 'b'] if falsy else ['a', 'b', 'c'])))
+    if k == 'none':
+        # comparison with the constant None (the data has None names)
+        return ('cmp', rng.choice(['eq', 'ne']), ('attr', rng.randrange(nvars), 'name'), ('lit', None))
     if k == 'truth':
         return ('truth', ('attr', rng.randrange(nvars), 'flag'))
     if k == 'truthy':
@@ -230,7 +255,7 @@ def run_single(dom, cond, variant=0):
     equivalent spellings of the query: an(entity(x, c)) / an(set_of([x], c)) / the conditions given one by one when c is a
     conjunction / evaluated inside a symbolic block"""
     with symbolic_mode():
-        x = let(type_=Item, domain=dom)
+        x = let(type_=type(dom[0]) if dom else Item, domain=dom)
         if variant % 4 == 1:
             q = an(set_of([x], build(cond, [x])))
         elif variant % 4 == 2 and cond[0] == 'and':
@@ -258,7 +283,7 @@ def run_multi(doms, cond, sel=None, decl=None, sel_order=None, flat=False):
     with symbolic_mode():
         xs = [None] * len(doms)
         for i in (decl if decl is not None else range(len(doms))):
-            xs[i] = let(type_=Item, domain=doms[i])
+            xs[i] = let(type_=type(doms[i][0]) if doms[i] else Item, domain=doms[i])
         sel = list(range(len(xs))) if sel is None else sel
         listed = [xs[i] for i in (sel_order if sel_order is not None else sel)]
         if flat and cond[0] == 'and':
@@ -433,6 +458,39 @@ class PInit:
     uid: int = field(init=False, default=7)
     name: str = 'x'
     size: int = 1
+
+
+@symbol
+@dataclass(eq=False)
+class PDef:
+    """every field has a default: PDef() is a complete construction with no arguments at all"""
+    name: str = 'dflt'
+    size: int = 1
+
+
+@dataclass(eq=False)
+class PDefSub(PDef):
+    """undecorated subclass, also constructible without arguments"""
+    extra: int = 0
+
+
+class PDefHand(PDef):
+    """hand-written __init__ without parameters"""
+
+    def __init__(self):
+        super().__init__('hand', 3)
+
+
+@symbol
+@dataclass(eq=False)
+class PPost:
+    """`area` is a field that is NOT a constructor parameter: it is computed in __post_init__"""
+    name: str
+    size: int = 1
+    area: int = field(init=False, default=0)
+
+    def __post_init__(self):
+        self.area = self.size * 2
 
 
 @symbol
